@@ -377,7 +377,8 @@ package fpgo
 // function exactly once with the curry itself and all arguments so far, storing its value as the result; a Call on a done
 // curry changes nothing and calls nothing.  args/result are only touched while callM is held, and the decision
 // "not done" is taken inside the same critical section as the update it guards (so concurrent Calls are serial and a
-// MarkDone that happened before a Call got the lock is honoured).
+// MarkDone that happened before a Call got the lock is honoured).  The accumulated arguments live in the curry's own storage
+// (grown in place or newly allocated), never in the caller's variadic slice, so a caller that re-uses its buffer cannot change them.
 //@ func CurryNewGenerics
 //@   prop C20
 //@   opt callbacks=effectful
@@ -398,6 +399,7 @@ package fpgo
 //@   ensures accumulated: !old(currySelf.isDone) ==> tr_args[old(tr_len)][0] == boxed(currySelf) && tr_args[old(tr_len)][1] == boxed(currySelf.args)
 //@   ensures appended: !old(currySelf.isDone) ==> len(currySelf.args) == old(len(currySelf.args)) + len(args) && forall(k, 0, old(len(currySelf.args)), currySelf.args[k] == old(currySelf.args[k])) && forall(k, 0, len(args), currySelf.args[old(len(currySelf.args))+k] == old(args[k]))
 //@   ensures result-stored: !old(currySelf.isDone) ==> currySelf.result == tr_ress[old(tr_len)][0]
+//@   ensures own-storage: !old(currySelf.isDone) ==> base(currySelf.args) == old(base(currySelf.args)) || fresh(currySelf.args)
 //@ func (CurryDef).MarkDone
 //@   prop C20
 //@   modifies currySelf
